@@ -106,6 +106,12 @@ def generate(rng, tier):
         fields[rng.randrange(k)] = rng.choice(ODD_FIELDS)
     if rng.random() < 0.6 and "status" not in fields:
         fields[rng.randrange(k)] = "status"
+    if rng.random() < 0.08:
+        # two fields whose names differ in case only (field names are case sensitive)
+        i, j = rng.sample(range(k), 2)
+        if fields[i] != "status" and fields[j] != "status":
+            fields[j] = rng.choice([fields[i].upper(), fields[i].capitalize()])
+            odd = True
     has_enum = "status" in fields
     recs = []
     sizes = [0, 1, 2, 3, 4, 6, 9, 12] + ([25, 55, 70] if tier != "quick" else [])
